@@ -16,12 +16,31 @@ import (
 // ---------- scenarios: a token, limits, and a history of operations on ONE authorizer ----------
 
 type azOp struct {
-	Kind   string // fact rule check policy authorize query reset
+	Kind   string // fact rule check policy authorize query reset load
 	Fact   SPred
 	Rule   SRule
 	Check  SCheck
 	Policy SPolicy
+	// load: a snapshot (SerializePolicies of an authorizer given Load, in order) is loaded with
+	// LoadPolicies; for the model this is the content itself, facts then rules then checks then
+	// policies (theorem C18_equivalent)
+	Load      []azOp
+	LoadBytes []byte
 }
+
+// loadOrder lists the content of a snapshot in the order LoadPolicies installs it
+func loadOrder(content []azOp) []azOp {
+	var out []azOp
+	for _, k := range []string{"fact", "rule", "check", "policy"} {
+		for _, o := range content {
+			if o.Kind == k {
+				out = append(out, o)
+			}
+		}
+	}
+	return out
+}
+
 type azScenario struct {
 	Token []SBlock
 	MaxF  int
@@ -200,6 +219,10 @@ func runScenarioGo(tok *biscuit.Biscuit, sc azScenario, entry azEntry) (obs []az
 				a.AddPolicy(op.Policy.toBiscuit())
 			case "reset":
 				a.Reset()
+			case "load":
+				if err := a.LoadPolicies(op.LoadBytes); err != nil {
+					o.Panic = "LoadPolicies rejects a snapshot produced by SerializePolicies: " + err.Error()
+				}
 			case "authorize":
 				var err error
 				for attempt := 0; attempt < 3; attempt++ {
@@ -284,6 +307,12 @@ func (op azOp) String() string {
 		return k + " if " + strings.Join(qs, " or ")
 	case "query":
 		return "query " + op.Rule.String()
+	case "load":
+		parts := []string{}
+		for _, c := range loadOrder(op.Load) {
+			parts = append(parts, c.String())
+		}
+		return "load{" + strings.Join(parts, "; ") + "}"
 	}
 	return op.Kind
 }
@@ -320,13 +349,19 @@ func (sc azScenario) coqCase(obs []azObs) string {
 	for i, b := range sc.Token {
 		bs[i] = b.coq()
 	}
-	ops := make([]string, len(sc.Ops))
+	var ops, os []string
 	for i, o := range sc.Ops {
-		ops[i] = o.coq()
-	}
-	os := make([]string, len(obs))
-	for i, o := range obs {
-		os[i] = o.coq()
+		if o.Kind == "load" {
+			for _, c := range loadOrder(o.Load) {
+				ops = append(ops, c.coq())
+				os = append(os, "AONone")
+			}
+			continue
+		}
+		ops = append(ops, o.coq())
+		if i < len(obs) {
+			os = append(os, obs[i].coq())
+		}
 	}
 	return fmt.Sprintf("{| az_token := %s; az_limits := {| max_facts := %d; max_iterations := %d |}; az_ops := %s; az_obs := %s |}",
 		coqList(bs), maxN(sc.MaxF), maxN(sc.MaxI), coqList(ops), coqList(os))
